@@ -92,6 +92,19 @@ func contains(xs []string, s string) bool {
 var outcomeKinds = []string{"ok", "fail", "hang", "okx", "failx", "hangx", "hangxok"}
 
 func genC18(s uint64, idx int, tier string) *Plan {
+	pl := genC18base(s, idx, tier)
+	if idx%5 == 3 {
+		// failures that wrap context.Canceled while the attempt's context is live
+		for i := range pl.Race.Outcomes {
+			if o := &pl.Race.Outcomes[i]; (o.Kind == "fail" || o.Kind == "failx") && (i+idx/5)%2 == 0 {
+				o.GaveUp = true
+			}
+		}
+	}
+	return pl
+}
+
+func genC18base(s uint64, idx int, tier string) *Plan {
 	r := core.NewRand(s, "plan")
 	p := &RacePlan{}
 	n := core.Between(r, 1, 5)
@@ -114,6 +127,7 @@ func genC18(s uint64, idx int, tier string) *Plan {
 		// mode, every repetition) through one value
 		p.SharedDialer = true
 		p.Reps = 2
+		p.Retuned = idx%8 == 6
 	}
 	us := int64(time.Microsecond)
 	ms := int64(time.Millisecond)
